@@ -115,10 +115,14 @@ func (s *ftpService) SetChannel(c pushers.Channel) {
 
 func (s *ftpService) Handle(ctx context.Context, conn net.Conn) error {
 
-	ftpConn := s.server.newConn(conn, s.driver, s.recv)
+	// the command log channel belongs to this connection only; it is closed
+	// when the session ends so that its reader goroutine exits
+	recv := make(chan string)
+
+	ftpConn := s.server.newConn(conn, s.driver, recv)
 
 	go func() {
-		for msg := range s.recv {
+		for msg := range recv {
 			s.c.Send(event.New(
 				services.EventOptions,
 				event.Category("ftp"),
@@ -131,6 +135,8 @@ func (s *ftpService) Handle(ctx context.Context, conn net.Conn) error {
 	}()
 
 	ftpConn.Serve()
+
+	close(recv)
 
 	return nil
 }
